@@ -14,6 +14,7 @@ import (
 	pb "github.com/akrennmair/updog/proto/updog/v1"
 	"github.com/akrennmair/updog/verifharness/gen"
 	"github.com/akrennmair/updog/verifharness/ix"
+	"github.com/akrennmair/updog/verifharness/mon"
 	"github.com/akrennmair/updog/verifharness/oracle"
 	"github.com/akrennmair/updog/verifharness/vf"
 	"google.golang.org/grpc"
@@ -213,8 +214,8 @@ func (s *c14Server) send(caseID, class string, req []byte) {
 			r.Violation(caseID, "bad-response", w)
 		}
 	}
-	// probe
-	ctx, cancel = context.WithTimeout(context.Background(), 60*time.Second)
+	// probe (answers take milliseconds; the deadline only bounds the wait when the server is wedged)
+	ctx, cancel = context.WithTimeout(context.Background(), 25*time.Second)
 	var presp []byte
 	pi := s.nprobe % len(s.probes)
 	s.nprobe++
@@ -434,7 +435,11 @@ func runC14(r *vf.Run) {
 		r.Violation("c14", "open", err.Error())
 		return
 	}
+	inprocStuck := false
 	for _, h := range reqs {
+		if inprocStuck {
+			break
+		}
 		if !r.Want("inproc/" + h.id) {
 			continue
 		}
@@ -449,13 +454,40 @@ func runC14(r *vf.Run) {
 		for _, pq := range req.Queries {
 			r.Eval(1)
 			r.Count("inprocess_messages", 1)
-			if p, msg, stack := vf.Try(func() {
-				q := convert.ToQuery(pq)
-				res, err := idx.Execute(q)
-				if err == nil {
-					_ = convert.ToProtobufResult(res, 1)
+			type outcome struct {
+				p          bool
+				msg, stack string
+			}
+			doneCh := make(chan outcome, 1)
+			go func() {
+				var o outcome
+				o.p, o.msg, o.stack = vf.Try(func() {
+					q := convert.ToQuery(pq)
+					res, err := idx.Execute(q)
+					if err == nil {
+						_ = convert.ToProtobufResult(res, 1)
+					}
+				})
+				doneCh <- o
+			}()
+			var o outcome
+			select {
+			case o = <-doneCh:
+			case <-time.After(45 * time.Second):
+				// bounded progress: a request that never finishes is judged by where its goroutine is parked
+				stacks := joinStacks(mon.Stacks("akrennmair/updog."))
+				if c := mon.ClassifyDump(stacks); c != "" {
+					r.Violation("inproc/"+h.id, "request-never-finishes", map[string]any{"class": h.class, "message": head(pq.String(), 2000), "blocked": c, "stacks": head(stacks, 6000),
+						"explanation": "convert.ToQuery + Index.Execute did not return; an earlier request may have left a lock held"})
+				} else {
+					r.Inconclusive("in-process request " + h.id + " still computing after 45 s")
 				}
-			}); p {
+				inprocStuck = true
+			}
+			if inprocStuck {
+				break
+			}
+			if p, msg, stack := o.p, o.msg, o.stack; p {
 				r.Count("inprocess_panics", 1)
 				if r.GetCount("inprocess_panics") > 20 {
 					break // enough witnesses of this kind; keep counting
@@ -466,7 +498,9 @@ func runC14(r *vf.Run) {
 		}
 		r.Distinct(string(h.raw))
 	}
-	idx.Close()
+	if !inprocStuck {
+		idx.Close()
+	}
 
 	// the real server
 	if !haveBin("updog") {
